@@ -23,6 +23,7 @@ func traverse(cmd *cobra.Command, args []string) (Action, Context) {
 	inPositionals := []string{} // positionals consumed by current command
 	var inFlag *pflagfork.Flag  // last encountered flag that still expects arguments
 	inCommandCandidate := false // a word that cobra would have tried as subcommand name was consumed
+	inDash := false             // `--` was encountered: everything after it is positional
 	cmd.LocalFlags()            // TODO force  c.mergePersistentFlags() which is missing from c.Flags()
 	fs := pflagfork.FlagSet{FlagSet: cmd.Flags()}
 
@@ -46,6 +47,7 @@ loop:
 		case arg == "--":
 			LOG.Printf("arg %#v is dash\n", arg)
 			inArgs = append(inArgs, context.Args[i:]...)
+			inDash = true
 			break loop
 
 		// flag
@@ -92,7 +94,7 @@ loop:
 	if inFlag != nil && len(inFlag.Args) == 0 && inFlag.Consumes("") {
 		LOG.Printf("removing arg %#v since it is a flag missing its argument\n", toParse[len(toParse)-1])
 		toParse = toParse[:len(toParse)-1]
-	} else if (fs.IsInterspersed() || len(inPositionals) == 0) && fs.IsShorthandSeries(context.Value) { // TODO shorthand series isn't correct anymore (can have value attached)
+	} else if !inDash && (fs.IsInterspersed() || len(inPositionals) == 0) && fs.IsShorthandSeries(context.Value) { // TODO shorthand series isn't correct anymore (can have value attached)
 		LOG.Printf("arg %#v is a shorthand flag series", context.Value) // TODO not aways correct
 		localInFlag := fs.LookupArg(context.Value)
 
